@@ -11,7 +11,8 @@ THEOREMS = ["C16_flush", "C16_consumable", "C16_header", "C16_model_header", "C1
             "C16_pop_stamp_discipline", "C16_pop_loop_facts", "C16_pop_level_core",
             "C16_retry_endcollect", "C16_nest_spec", "C16_nest", "C16_model_meets_spec_populate",
             "C16_populate_position", "C16_populate_dest_rows",
-            "C16_populate_level_dest_rows", "C16_populate_fib_level_dest"]
+            "C16_populate_level_dest_rows", "C16_populate_fib_level_dest",
+            "C16_populate_read_scan", "C16_populate1_spec", "C16_model_meets_spec_populate1"]
 COQ_IMPORTS = "From FT Require Import Model.Base Model.Obs Model.C16Metrics Model.C16Nest Model.C16Check."
 CHECK_VO = ["Model/C16Check.v"]
 CHECKER = "c16_checker"
@@ -19,23 +20,39 @@ CASE_TYPE = "c16_case"
 SHARD = 60
 CASE_TIMEOUT = 20
 
-RULE = ("case = (loop nest of depth 1-3, each level `for c, p in [z <<] (x | x & y)`, input tensors of that "
-        "depth incl. explicit defaults and empty sub-fibers, a pre-populated output tensor for the leading "
-        "populate levels, innermost body `z_ref += 1` unless the point is skipped, the set of registered "
-        "traces, 2-3 flush thresholds); observation = every CSV file (header + integer rows) under every "
-        "threshold, the files and consumeTrace rows of a file+consumable run, the output tensor after the "
-        "run. distinct = distinct canonical JSON; non-trivial = at least one trace has a data row")
+RULE = ("case = (loop nest of depth 1-3, each level `for c, p in [z <<] (x | x & y)` or, innermost, "
+        "`z << x.project(c -> c + k, rank_id=<z's rank>, tick=True)`; compressed or uncompressed input / "
+        "destination ranks, optionally one flattened rank (tuple coordinates + Metrics.associateShape with huge "
+        "shapes); input tensors of that depth incl. explicit defaults and empty sub-fibers, a pre-populated "
+        "output tensor for the leading populate levels, innermost body `z_ref += 1` unless the point is "
+        "skipped, optional untraced getPayloadRef look-ups in the bodies (innermost element, another "
+        "coordinate of the enclosing fiber, a scratch fiber outside the nest), the set of registered traces, "
+        "2-3 flush thresholds); observation = every CSV file (header + integer rows) under every threshold, "
+        "the files and consumeTrace rows of a file+consumable run and of a run whose first endCollect() raises "
+        "and is retried, the output tensor after the run. distinct = distinct canonical JSON; non-trivial = at "
+        "least one trace has a data row")
 TRUSTED = ["Coq 8.16.1 kernel (coqc; coqchk in the thorough tier); vm_compute used; native_compute not used",
            "Print Assumptions of every C16 theorem: Closed under the global context (no axioms)",
            "hand-written Gallina model coq/Model/C16Metrics.v (Metrics trace state machine) and C16Nest.v "
            "(event streams of iterRange, &, <<) tied to /repo by the differential correspondence check of this run",
            "harness: harness/check.py, harness/props/c16.py, CPython 3.12 running the implementation; the CSV "
            "parser and the rank-name -> level-index table of c16.py"]
-ASSUMPTIONS = ["loop nests drawn from the grammar in RULE; project and getPayload(trace=) rows are not modelled",
+ASSUMPTIONS = ["loop nests drawn from the grammar in RULE; getPayload(trace=) rows are not modelled",
                "Metrics.getLabel numbering is static per level (reset by endIter): 0,1 outer operator, 2,3 the & below <<",
-               "leaf default 0, compressed ('C') ranks, integer coordinates"]
+               "leaf default 0, integer coordinates in the model (a flattened rank is linearised exactly by the harness)",
+               "proved end to end in Coq (c16_holds c (c16_model c) = true): nests without populate level "
+               "(C16_model_meets_spec_partial); populate prefix of any depth without projection level when no "
+               "populate_read/populate_write trace is registered (C16_model_meets_spec_populate); populate prefix of "
+               "depth <= 1 with ANY registered traces when the root traversal does not insert "
+               "(C16_model_meets_spec_populate1). NOT proved: destination-side addressing below the first level, "
+               "read_covered for inserting traversals (only its scan half, per traversal: C16_populate_read_scan), the "
+               "projection level, hence the full C16_model_meets_spec; for those cases the oracle is evaluated on the "
+               "model's own observation for every generated case (verdict bit 4)"]
 EXPLANATION = ("oracle = reference semantics of the nest (filter/lookup iteration space) + header/stamp/"
-               "addressing checks per trace + equality across thresholds and with the consumable rows")
+               "addressing checks per trace (destination-side rows of a populate against the populated tensor before / "
+               "after the run when the traversal does not insert; for an inserting traversal every stored element below "
+               "the last source coordinate must have its populate_read row(s)) + equality across thresholds, with the "
+               "consumable rows and with the retried-endCollect run")
 
 RANKS = ["M", "K", "N", "P", "Q"]
 KIND = {0: "iter", 1: "intersect_%d", 2: "populate_%d", 3: "populate_read_%d", 4: "populate_write_%d",
@@ -98,9 +115,8 @@ def gen_case(rng, depth=None, canon=None):
         z = U.gen_fiber(rng, nz, zshape, 0, p_absent=rng.choice([0.3, 0.6, 0.9, 1.0]),
                         p_zero=rng.choice([0.0, 0.0, 0.3]), p_emptysub=rng.choice([0.0, 0.0, 0.3]))
     flat = None
-    # (only `for` levels over one operand: with an EMPTY second operand `x & y` takes the mixed-arity
-    #  path and its internal project() asserts a rank_id while metrics are collected)
-    cand_flat = [i for i, l in enumerate(levels) if not l[0] and not l[2] and l[4] is None and l[1][0] == "F"]
+    # (`for` levels over one operand or over `x & y`: both operands then carry the tuple coordinates)
+    cand_flat = [i for i, l in enumerate(levels) if not l[0] and not l[2] and l[4] is None]
     if cand_flat and rng.random() < 0.15:
         # a flattened rank: tuple coordinates (a, b, c) within dims, logged by Metrics as their
         # row-major linearisation (Metrics.associateShape); the case carries the linearised values
